@@ -183,7 +183,8 @@ class PlanJoinTSPredictorQuery:
         last_step = self.planner.plan.add_step(JoinStep(left=left, right=right, query=new_join))
 
         # limit from timeseries
-        if predictor_steps.get('saved_limit'):
+        if predictor_steps.get('saved_limit') is not None:
+            # LIMIT 0 is a limit too
             last_step = self.planner.plan.add_step(LimitOffsetStep(dataframe=last_step.result,
                                                            limit=predictor_steps['saved_limit']))
 
